@@ -277,7 +277,7 @@ def check_property(pid, tier, seed, shared=None):
 ASSUMPTIONS = [
     'A-kernel: the system-call contracts of prelude/root_20_std.rs, root_25_path.rs, root_27_xattr.rs (every external_body there) are assumed, not proved',
     'A-stable: no other process modifies sources or destinations during the run',
-    'A-pool/A-main/A-walk/A-drop: thread pool runs each job once; main turns the first Error update or Err into a non-zero exit; WalkDir yields each entry once; Drop runs after the last use',
+    'A-pool/A-walk/A-drop: thread pool runs each job once; WalkDir delivers a fixed finite sequence of items per root (walk_seq); Drop runs after the last use; a Rust main returning Err exits non-zero',
     'A-eintr: a read is interrupted only finitely often (World.eintr_left)',
     'A-off_t: offsets and extent ends fit in i64; usize is 64 bit (global size_of usize == 8)',
     'A-panic: panic! is divergence',
